@@ -3800,10 +3800,14 @@ class BoutMesh(Mesh):
             elif len(self.y_regions_noguards) == 3:
                 # single-null
                 jyseps1_1 = self.y_regions_noguards[0] - 1
-                jyseps2_1 = self.ny // 2
-                ny_inner = self.ny // 2
-                jyseps1_2 = self.ny // 2
                 jyseps2_2 = sum(self.y_regions_noguards[:2]) - 1
+                # jyseps2_1 = jyseps1_2 marks a (non-existent) upper divertor. It must
+                # lie in the core, jyseps1_1 <= jyseps2_1 = jyseps1_2 <= jyseps2_2,
+                # otherwise BOUT++ resets the indices and changes the topology. ny//2
+                # can be outside that range when the legs have very different sizes.
+                ny_inner = min(max(self.ny // 2, jyseps1_1), jyseps2_2)
+                jyseps2_1 = ny_inner
+                jyseps1_2 = ny_inner
             elif len(self.y_regions_noguards) == 4:
                 # single X-point with all 4 legs ending on walls
                 jyseps1_1 = self.y_regions_noguards[0] - 1
